@@ -27,9 +27,10 @@ RULE = (
     "object, same key via data=/msg=/from_type_string/AgentKey.inner_key/certificate blob/other private provenance, or "
     "another key; RSA algorithm among 6 names; message 0-2000 bytes; data same/altered; blob mutation none/bitflip/"
     "truncate/extend/algorithm name (other type, hash, curve, unknown, empty, invalid UTF-8)/signature length/ECDSA inner "
-    "integers (non-minimal, negative, zero, >= order, 4096-bit, missing, trailing, (r,n-s))/zero-tail truncation (outer, inner)/random "
+    "integers (non-minimal, negative, zero, >= order, 4096-bit, missing, trailing, (r,n-s))/zero-tail truncation (outer, inner)/inner length prefixes/random "
     "bytes); non-trivial = anything but 'unmodified signature checked by the signing object itself'; distinct by SHA-1 "
-    "of (verifier, data, blob)"
+    "of (verifier, data, blob); excluded by construction (counted): blobs that make an ECDSA verifier inflate a "
+    "zero-padded mpint of more than 64 KiB (answers False, but only after 10-30 s of quadratic inflate_long)"
 )
 
 RSA_ALGS = [
@@ -212,6 +213,7 @@ mutations = st.one_of(
     st.tuples(st.just("inner-raw"), st.binary(max_size=24)).map(list),
     st.just(["zero-tail"]),
     st.just(["inner-zero-tail"]),
+    st.tuples(st.just("inner-lenfield"), st.integers(0, 1), st.sampled_from(["+1", "+256", 0x100000, 0x7FFFFFFF, 0xFFFFFFFF, 0x100001, 0xFFFFF])).map(list),
     st.tuples(st.just("random"), st.binary(max_size=80)).map(list),
     st.tuples(st.just("lenfield"), st.integers(0, 1), st.sampled_from([0, 1, 0x7FFFFFFF, 0x80000000, 0xFFFFFFFF, 0x100000, 0xFFFFF])).map(list),
 )
@@ -379,6 +381,16 @@ def realise(rc):
             blob = _join(alg, _inner(mut[1], r_, s_, K.curve_order(ref_public(rc["signer"]).curve)))
     elif kind == "inner-raw":
         blob = _join(alg, bytes(mut[1]))
+    elif kind == "inner-lenfield":
+        # overwrite the length prefix of r (0) or s (1) inside an ECDSA blob; the outer framing stays correct
+        applied = False
+        if cls == "ECDSAKey":
+            rd = R.Reader(sig)
+            rb = rd.string()
+            off = 0 if mut[1] == 0 else 4 + len(rb)
+            cur = int.from_bytes(sig[off : off + 4], "big")
+            val = cur + int(mut[2]) if isinstance(mut[2], str) else mut[2]
+            blob, applied = _join(alg, sig[:off] + R.u32(val) + sig[off + 4 :]), True
     elif kind == "inner-zero-tail":
         # directed: s ends in a zero byte; the inner encoding loses it (inner length field untouched,
         # outer length field correct)
@@ -543,7 +555,7 @@ def run(ctx):
     ctx.assume("RSA signature algorithm names with the -cert-v01@openssh.com suffix are accepted as aliases (documented in RSAKey.HASHES)")
     ctx.assume("integers inside ECDSA signatures may be encoded non-minimally: the decoded value is what is verified")
     state = _State()
-    ctx.explore(recipes(), lambda rc: execute(ctx, rc, state), ctx.scale(5000, 60000), shrink=False)
+    ctx.explore(recipes(), lambda rc: execute(ctx, rc, state), ctx.scale(4000, 50000), shrink=False)
 
 
 def replay(ctx, case):
